@@ -28,6 +28,16 @@ func init() {
 		sliceCopyLeft := len(res) == 1 && res[0] != a
 		res = gedcom.MergeNodeSlices(nil, gedcom.Nodes{b}, doc, never)
 		sliceCopyRight := len(res) == 1 && res[0] != b
+		// DeepCopy of a HUSB node on its own
+		seeds := false
+		func() {
+			defer func() { recover() }()
+			d, err := gedcom.NewDocumentFromString("0 @F1@ FAM\n1 HUSB @I1@\n")
+			if err == nil && len(d.Nodes()) == 1 && len(d.Nodes()[0].Nodes()) == 1 {
+				cp := gedcom.DeepCopy(d.Nodes()[0].Nodes()[0], gedcom.NewDocument())
+				seeds = !gedcom.IsNil(cp)
+			}
+		}()
 		var sb strings.Builder
 		sb.WriteString("-- Source: behavioural probes of MergeNodes / MergeNodeSlices (object identity of the result\n")
 		sb.WriteString("-- against the inputs): does the code pass the node through DeepCopy?\n")
@@ -35,6 +45,7 @@ func init() {
 		fmt.Fprintf(&sb, "/-- MergeNodes adds an unmatched right child as a deep copy -/\ndef mergeNodesCopiesRight : Bool := %v\n\n", nodesCopyRight)
 		fmt.Fprintf(&sb, "/-- MergeNodeSlices puts deep copies of the left nodes into the new slice -/\ndef mergeSlicesCopyLeft : Bool := %v\n\n", sliceCopyLeft)
 		fmt.Fprintf(&sb, "/-- MergeNodeSlices appends an unmatched right node as a deep copy -/\ndef mergeSlicesCopyRight : Bool := %v\n\n", sliceCopyRight)
+		fmt.Fprintf(&sb, "/-- DeepCopy of a HUSB / WIFE / CHIL node on its own does not panic (the family is taken from the node) -/\ndef deepCopySeedsFamily : Bool := %v\n\n", seeds)
 		sb.WriteString("end Gedcom.Generated\n")
 		return sb.String()
 	}
